@@ -26,6 +26,10 @@ package main
 //      each one names (evaluated through (*Model).update)
 //   f  (added) chords with a single unambiguous legacy encoding (Enter/Tab/Esc/Backspace,
 //      printable ASCII, Ctrl+letter, Alt+letter/digit) round-trip as well
+//   g  (added) compound DECSET/DECRST = its parameters one by one
+//   h  (added, c13x.go) paste brackets over whole histories: state the widget keeps between calls
+//      (fields promoted to tracked state on demand) never makes a boundary go out while 2004 is
+//      reset nor stay in while it is set
 
 import (
 	"fmt"
@@ -51,6 +55,11 @@ type c13Env struct {
 	flagNames []string
 	consts    map[string]int64
 	keyName   map[int64]string
+	// further fields of Model tracked concretely from their zero value (promoted on demand, c13x.go)
+	aux       []string
+	auxVar    map[string]*types.Var
+	auxNo     map[string]string // field -> why it cannot be tracked
+	termReach map[*types.Func]bool
 }
 
 var c13Flags = []string{"decckm", "deckpam", "paste", "mouseButtons", "mouseDrag", "mouseMotion", "mouseSGR", "altScroll", "smcup"}
@@ -90,6 +99,8 @@ func runC13(c *Ctx) {
 	if x == nil {
 		return
 	}
+	c13lastEnv = x
+	x.m.unkOf = x.modelT
 	x.ruleA()
 	x.ruleB()
 	x.ruleC()
@@ -346,9 +357,61 @@ func (x *c13Env) run(fi *FuncInfo, recv c13V, args ...c13V) (res c13Res) {
 			res.paths = paths
 		} else if d != firstDigest {
 			return c13Res{paths: res.paths, undecided: fmt.Sprintf("the observed outcome depends on a condition the evaluator cannot compute: %s (one path gives %s, another %s)", x.m.firstUnknown, c13Clip(firstDigest), c13Clip(d))}
+		} else {
+			// same observed outcome: what is NOT observed may still differ between the paths; the
+			// receiver handed on to a following step keeps only what all paths agree on
+			x.mergeRecv(res.recv.st, out.recv.st, 0)
 		}
 	}
 	return res
+}
+
+// mergeRecv makes every field of a that b does not hold with the same value unknown (recursively
+// through struct values). A field absent from a non-opaque object holds its zero value.
+func (x *c13Env) mergeRecv(a, b *c13Obj, depth int) {
+	if a == nil || b == nil || a == b || depth > 4 {
+		return
+	}
+	val := func(o *c13Obj, n string) c13V {
+		if s := o.f[n]; s != nil {
+			return *s
+		}
+		if o.opaque {
+			return c13unk("field %s is not modelled", n)
+		}
+		if o.typ != nil {
+			if st, ok := o.typ.Underlying().(*types.Struct); ok {
+				for i := 0; i < st.NumFields(); i++ {
+					if st.Field(i).Name() == n {
+						return x.m.zero(st.Field(i).Type())
+					}
+				}
+			}
+		}
+		return c13unk("field %s", n)
+	}
+	names := map[string]bool{}
+	for n := range a.f {
+		names[n] = true
+	}
+	for n := range b.f {
+		names[n] = true
+	}
+	for n := range names {
+		av, bv := val(a, n), val(b, n)
+		if x.render(av, 0) == x.render(bv, 0) {
+			continue
+		}
+		if av.k == c13Struct && bv.k == c13Struct && av.st != nil && bv.st != nil {
+			if a.f[n] == nil {
+				a.f[n] = &av
+			}
+			x.mergeRecv(a.f[n].st, bv.st, depth+1)
+			continue
+		}
+		u := c13unk("field %s differs between the paths of a forked evaluation", n)
+		a.f[n] = &u
+	}
 }
 
 func c13Clip(s string) string {
@@ -402,6 +465,17 @@ func (x *c13Env) observe(recv c13V) string {
 	for _, f := range []string{"pastePending", "reqCursorPos"} {
 		if s := recv.st.f[f]; s != nil {
 			sb.WriteString(f + "=" + x.render(*s, 0) + ";")
+		}
+	}
+	if recv.st.typ != nil && types.Identical(recv.st.typ, x.modelT) {
+		for _, f := range x.aux {
+			sb.WriteString(f + "=")
+			if s := recv.st.f[f]; s != nil {
+				sb.WriteString(x.render(*s, 0))
+			} else {
+				sb.WriteString("?")
+			}
+			sb.WriteString(";")
 		}
 	}
 	return sb.String()
@@ -1119,7 +1193,10 @@ func (x *c13Env) ruleD() {
 				flags["paste"] = paste
 				cs := c13FlagString(flags)
 				ev := x.structV(x.typ(x.root, pe.typ), nil)
-				r := x.run(x.fnUpdate, x.model(flags), ev)
+				// a widget as New() leaves it: state Update itself keeps between calls (a field the
+				// outcome turns out to depend on) starts from its zero value; what such state does to
+				// later pastes is decided over whole histories by C13.h
+				r := x.runTracked(x.fnUpdate, func() c13V { return x.modelAux(flags) }, ev)
 				tgt := excess
 				if paste {
 					tgt = arrive
